@@ -4,7 +4,7 @@ import z3
 from .sym import zint, zbool, fresh, I
 from .interp import Unsupported, PyRaise, PyExcVal, AstFunc, Env, PathAbort
 from .heap import snapshot, havoc_inplace, fresh_like
-from . import sym
+from . import sym, vocab
 
 
 class Old:
@@ -76,6 +76,10 @@ def apply_contract(ip, f: AstFunc, args, kwargs):
 
 
 def apply_to_params(ip, c, params):
+    from .sym import SV
+    for n_, v_ in list(params.items()):
+        if isinstance(v_, SV) and v_.hint is not None:
+            params[n_] = ip.resolve(v_)       # an object reference read from a dict: the object itself
     caller = _caller(ip)
     short = c.key.split('.', 1)[1]
     k = _site_ordinal(ip, short)
@@ -115,7 +119,12 @@ def apply_to_params(ip, c, params):
         try:
             result = call_spec(ip, spec, params)
         except PyRaise as r:
-            raised = r
+            if r.cls is vocab.SpecUnavailable:
+                spec = None
+            else:
+                raised = r
+    if spec is not None:
+        pass
     elif _is_noop(ip, c, params):
         # the contract's own postcondition says nothing changes in this situation (e.g. no plugin
         # installed): apply that directly instead of havoc followed by assumed equalities
@@ -128,6 +137,7 @@ def apply_to_params(ip, c, params):
             par = ip.reg.get(par.extends)
             mods = par.modifies if par is not None else None
         tag = f'{short}#{ctx.count("apply:" + c.key)}'
+        _same_inputs(ip, c, tag, params)
         for path in (mods or ()):
             _havoc_path(ip, params, path, tag)
         n_out = 1 + len(c.raises)
@@ -155,6 +165,30 @@ def apply_to_params(ip, c, params):
     if raised is not None:
         raise raised
     return result
+
+
+def _same_inputs(ip, c, tag, params):
+    """The unknown effect of a spec-less callee is modelled as a function of (callee, call ordinal).
+    That is only right if the spec run of a refinement check calls it with the same arguments as the
+    body run did: the body run records its arguments, the spec run must match them."""
+    g = ip.ctx.ghost
+    if ip.verifying is None:
+        return
+    rec = g.setdefault('det_inputs', {})
+    if not g.get('in_spec'):
+        if ip.spec_depth == 0 or True:
+            rec[tag] = snapshot(dict(params))
+        return
+    from .heap import same_value
+    prev = rec.get(tag)
+    if prev is None:
+        ip.ctx.oblige(f'{ip.verifying}/refine/args[{tag}]/called-by-body', False, 'refine')
+        return
+    for n, v in params.items():
+        out = []
+        same_value(ip, prev[n], v, n, out)
+        for label, cnd in out:
+            ip.ctx.oblige(f'{ip.verifying}/refine/args[{tag}]/{label}', cnd, 'refine')
 
 
 def _is_noop(ip, c, params):
